@@ -26,7 +26,7 @@ case "$r_without" in ok*) ;; *) echo "REJECT: demo does not pass without patch";
 case "$r_with" in ok*) echo "REJECT: demo passes with patch"; exit 6;; esac
 [ "$fails" = 0 ] || { echo "REJECT: suite fails with patch"; exit 7; }
 mkdir -p /verif/seeded/$id
-git diff > /verif/seeded/$id/patch.diff
+git add -N . 2>/dev/null; git diff > /verif/seeded/$id/patch.diff
 cp $demofile /verif/seeded/$id/
 python3 - <<PY
 import json
